@@ -102,110 +102,6 @@ def _last_occurrence_search(chk, fx, fn, b):
     return bool(rev)
 
 
-def stream_receiver(chk, fx, kind, b, mlen):
-    chk.analysed(b.name)
-    fn = "transport::%s::Receiver::recv" % kind
-    if _last_occurrence_search(chk, fx, fn, b):
-        return
-    sym = TC.Sym(b, mlen)
-    finds = b.calls_to("memmem::Finder::<'n>::find", user_only=True)
-    reads = b.calls_to("AsyncReadExt::read_buf", "AsyncReadExt::read", user_only=True)
-    splits = b.calls_to("BytesMut::split_to", user_only=True)
-    # find + split may live in a private helper of the handle ("split one message off the buffer"), called with the search offset
-    helper = None
-    if not finds and not splits:
-        for c in b.calls():
-            if c.macro:
-                continue
-            hb = fx.mir.get(c.rdef) or fx.mir.get(c.defn)
-            if hb is None or hb.crate != "netconf" or hb is b:
-                continue
-            hf = hb.calls_to("memmem::Finder::<'n>::find", user_only=True)
-            hs_ = hb.calls_to("BytesMut::split_to", user_only=True)
-            if hf and hs_:
-                helper = (c, hb, hf, hs_)
-                break
-    caller, caller_sym, hcall = b, sym, None
-    if helper is not None:
-        hcall, b, finds, splits = helper
-        sym = TC.Sym(b, mlen)
-        chk.analysed(b.name)
-    # bytes leave the receive buffer only as the message that is split off: anything else that shortens it (clear, truncate, advance,
-    # split_off ..) throws away what followed the delimiter in the same read
-    discards = [(p, e) for p in paths for e in p.trace if e[0] == "discard" and _buffer_root(e[1])[1]]
-    for (p, e) in discards[:4]:
-        chk.instance("C06/R4", "%s: the receive buffer is shortened only by split_to(end of message)" % kind, b.name, loc_of(e[3]), holds=False,
-                     key="C06/R4 %s buffer-discarded-by %s" % (fn, e[2]), detail="bytes after the delimiter (the next message, or its head) are lost")
-    if discards and not splits:
-        return
-    chk.floor("C06 %s find/read/split sites" % kind, min(len(finds), len(reads), len(splits)), 1)
-    chk.call_sites += len(finds) + len(reads) + len(splits)
-    start_local = None
-    for f in finds:
-        hs, idx_call = haystack_start(b, sym, f)
-        if hs[0] == "buffer":
-            chk.instance("C06/R1", "%s: whole receive buffer searched" % kind, b.name, f.loc(), holds=True)
-        elif hs[0] == "from":
-            op = hs[1]
-            e0 = sym.of_operand(op)
-            if e0[0] == "var":
-                start_local = e0[1]
-                argc = b.raw["arg_count"]
-                if hcall is not None and 1 <= e0[1] <= argc:
-                    # the offset is a parameter of the helper: its values are what the caller passes
-                    ce = caller_sym.of_operand(hcall.args[e0[1] - 1])
-                    alts = caller_sym.alternatives(ce[1]) if ce[0] == "var" else [(ce, None)]
-                else:
-                    alts = sym.alternatives(e0[1])
-            else:
-                alts = [(e0, None)]
-            for (e, sp) in alts:
-                ok, why = window_ok(e, mlen)
-                chk.instance("C06/R1", "%s: search window start %s keeps a split delimiter visible" % (kind, render(e)),
-                             b.name, loc_of(sp) if sp else f.loc(), holds=ok, detail=why,
-                             key="C06/R1 %s search-window-start %s" % (fn, render(e)))
-        else:
-            chk.instance("C06/R1", "%s: haystack of find has an unrecognised form" % kind, b.name, f.loc(), holds=False,
-                         detail=hs[1], key="C06/R1 %s unrecognised-haystack" % fn)
-    # R2 split position
-    for s in splits:
-        e = sym.of_operand(s.args[1])
-        terms = TC.add_terms(e)
-        consts = sum(t[1] for t in terms if t[0] == "const")
-        others = sorted(t for t in terms if t[0] != "const")
-        want = [("index",)] + ([("var", start_local)] if start_local is not None else [])
-        ok = consts == mlen and others == sorted(want)
-        chk.instance("C06/R2", "%s: split position = start + index + MARKER.len() (got %s)" % (kind, render(e)), b.name,
-                     s.loc(), holds=ok, key="C06/R2 %s split-position" % fn)
-        # the buffer split is the buffer searched and read into
-    # R3: a find precedes every wait for input
-    hb_ = b
-    b = caller
-    find_blocks = [f.bb for f in finds] if hcall is None else [hcall.bb]
-    for r in reads:
-        reach = b.reachable(0, avoid=find_blocks)
-        chk.instance("C06/R3", "%s: the buffer is searched before waiting for more input" % kind, b.name, r.loc(),
-                     holds=r.bb not in reach, key="C06/R3 %s read-without-search" % fn)
-        # after reading, search again before the next read
-        after = b.reachable_from_succs(r.bb, avoid=find_blocks)
-        chk.instance("C06/R3", "%s: after a read the buffer is searched again before the next read" % kind, b.name, r.loc(),
-                     holds=r.bb not in after, key="C06/R3 %s reread-without-search" % fn)
-    # R4: buffers are fields of the handle
-    for r in reads:
-        ok = rooted_in_self(b, F.op_base(r.args[1]))
-        chk.instance("C06/R4", "%s: read_buf destination is a field of the handle (survives the call)" % kind, b.name,
-                     r.loc(), holds=ok, key="C06/R4 %s read-buffer-not-in-handle" % fn)
-    for s in splits:
-        ok = rooted_in_self(hb_, F.op_base(s.args[0]))
-        chk.instance("C06/R4", "%s: split_to operates on the handle's buffer" % kind, hb_.name, s.loc(), holds=ok,
-                     key="C06/R4 %s split-buffer-not-in-handle" % fn)
-    if hcall is not None:
-        # the helper is given the handle itself
-        ok = rooted_in_self(caller, F.op_base(hcall.args[0])) or 1 in caller.backward_slice(F.op_base(hcall.args[0]), through_call=lambda c: c.is_fn("Deref::deref", "DerefMut::deref_mut"))[1]
-        chk.instance("C06/R4", "%s: the split helper works on the handle (self)" % kind, caller.name, hcall.loc(), holds=ok,
-                     key="C06/R4 %s helper-not-on-handle" % fn)
-
-
 def rooted_in_self(b, l):
     """local l is a reference to a field place rooted at the coroutine's captured self."""
     if l is None:
